@@ -9,6 +9,7 @@
    which the k-th operation ranges over the Go map (any permutation), [exp] the 20 s window. *)
 From Verif Require Import Base.Util Model.Metadata Model.ResultStore Model.ProposalQueue.
 From Verif Require Import Proofs.MetadataProofs Proofs.ProposalQueueProofs Gen.Generated.
+From Verif Require Import Base.GenIR Gen.GeneratedTr Proofs.GenTrStores.
 Open Scope Z_scope.
 
 (* Viewing returns exactly the proposals that are pending (latest add for their type and work
@@ -124,6 +125,55 @@ Theorem C11_gen_constants :
   OutcomeSurfacedProposalsLimit <= FinalConditionalBatchSize.
 Proof. vm_compute. repeat split; discriminate. Qed.
 Print Assumptions C11_gen_constants.
+
+Section GenTie.
+Local Open Scope Z_scope.
+(* ---- Tie to the source by translation (Gen/GeneratedTr.v, regenerated from /repo on every run by gen/translate.go) ----
+   g_* are the decision terms translated from the CURRENT Go code: every condition, the branch structure and which
+   white-listed effect statement runs on which path.  The theorems below state that the model's functions - about
+   which every theorem above speaks - are the interpretation of these terms. *)
+(* proposalQueue.Enqueue, loop body: the model's enqueue1 is the interpretation of the generated body (a stored block at or above the new one keeps the record) *)
+Theorem C11_gen_Enqueue_decisions :
+  forall now q p,
+  let l := qget (p_wid p) q in
+  enqueue1 now q p =
+  match g_pq_enqueue_body (isSome l) (Z.of_N (p_blk (q_prop (oget (mkQRec p false now) l)))) (Z.of_N (p_blk p)) with
+  | ([1], Fall) => qset (p_wid p) (mkQRec p false now) q
+  | _ => q
+  end.
+Proof. exact gen_pq_enqueue_body. Qed.
+Print Assumptions C11_gen_Enqueue_decisions.
+
+(* proposalQueueRecord.expired: age strictly greater than the window *)
+Theorem C11_gen_expired_decision :
+  forall exp now r,
+  g_pq_expired (now - q_at r) exp = ([], RetB (q_expired exp now r)).
+Proof. exact gen_pq_expired. Qed.
+Print Assumptions C11_gen_expired_decision.
+
+(* proposalQueue.Dequeue, scan: expired records deleted, removed ones skipped, records of the wanted type are candidates *)
+Theorem C11_gen_Dequeue_scan_decisions :
+  forall exp now typ (kv : N * qrec),
+  let d := g_pq_dequeue_body (q_expired exp now (snd kv)) (q_removed (snd kv)) (Z.of_N (p_typ (q_prop (snd kv)))) (Z.of_N typ) in
+  (negb (q_expired exp now (snd kv)) && negb (q_removed (snd kv)) && N.eqb (p_typ (q_prop (snd kv))) typ
+   = match d with ([2], Fall) => true | _ => false end)
+  /\ (negb (q_expired exp now (snd kv)) = match d with ([1], Cont) => false | _ => true end).
+Proof. exact gen_pq_dequeue_body. Qed.
+Print Assumptions C11_gen_Dequeue_scan_decisions.
+
+(* proposalQueue.Dequeue, whole function: at most n candidates are handed out *)
+Theorem C11_gen_Dequeue_cut_decisions :
+  forall (A : Type) (cands : list A) (n : nat),
+  firstn n cands =
+  match g_pq_dequeue (Z.of_nat (length cands)) (Z.of_nat n) with
+  | ([1; 2; 3; 4], RetO 1) => cands
+  | ([1; 3; 4], RetO 1) => firstn n cands
+  | _ => []
+  end.
+Proof. exact gen_pq_dequeue. Qed.
+Print Assumptions C11_gen_Dequeue_cut_decisions.
+
+End GenTie.
 
 (* Non-vacuity: an expired entry sorted before two live ones, a removal and a re-add; a chain of
    three outcomes repeating one proposal with dequeue ticks in between, then the window re-opens. *)
